@@ -1477,7 +1477,18 @@ private:
         haveCL = true;
         clValue = value;
       }
-      resp.headers[name] = value;
+      auto prev = resp.headers.find(name);
+      if (prev != resp.headers.end() && ciEquals(name, "Connection"))
+      {
+        // RFC 9110 §5.3: repeated field lines of a list-valued field are ONE
+        // comma-separated list. Keeping only the last line would lose a
+        // "close" option sent in an earlier "Connection" line.
+        prev->second += ", " + value;
+      }
+      else
+      {
+        resp.headers[name] = value;
+      }
       pos = (lnl == std::string::npos) ? hs.size() : lnl + 2;
     }
   }
